@@ -472,6 +472,49 @@ def residual_hom(chk, facts):
     chk.floor(rule, "residual-response obligations", n, 19)
 
 
+DELEGATE_SKIP = ("clone", "from", "into", "as_ref", "new", "ref_cast", "fmt", "all_available")
+
+
+def _norm_ty(t):
+    import re
+    return re.sub(r"\{closure@[^}]*\}", "{closure}", t)
+
+
+def sibling_delegates(chk, facts):
+    """Thin wrappers are not cross-wired: among the methods of one wrapper type that consist of a single call into the
+    wrapped layer, a method is never implemented by the call that a *sibling* of the same return type is named after and
+    delegates to (e.g. must_be_determining() calling the core's may_be_determining())."""
+    import collections
+    rule = "C19.DELEGATE"
+    n = 0
+    for layer, prefix, target in (("api", "cedar_policy::api::", "cedar_policy_core::"), ("ffi", "cedar_policy::ffi::", "cedar_policy::api::")):
+        by_type = collections.defaultdict(dict)
+        for name in facts.fns.keys():
+            if not name.startswith(prefix) or "{closure" in name or "tests::" in name or name.startswith("<"):
+                continue
+            f = facts.fns[name]
+            segs = name.split("::")
+            own, ty = segs[-1], "::".join(segs[:-1])
+            core = [(callee(t), t[1].get("l")) for b, t in f.calls() if callee(t).startswith(target) and callee(t).split("::")[-1] not in DELEGATE_SKIP]
+            if len(core) == 1:
+                by_type[ty][own] = (core[0][0], core[0][1], f)
+        for ty, ws in sorted(by_type.items()):
+            pure = {own: f for own, (c, _, f) in ws.items() if c.split("::")[-1] == own}
+            for own, (c, line, f) in sorted(ws.items()):
+                m = c.split("::")[-1]
+                if m == own:
+                    n += 1
+                    chk.functions.add(f.name)
+                    continue
+                if m in pure and _norm_ty(pure[m].locals[0]) == _norm_ty(f.locals[0]):
+                    chk.ob(rule, "%s::%s" % (ty.split("::")[-1], own), False,
+                           "%s::%s is implemented by the single call %s — the call its sibling %s (same return type) is named after" % (ty.split("::")[-1], own, short(c), m),
+                           where=f.where(line), fn=f.name, key="%s:%s:%s:%s" % (rule, layer, ty, own))
+    chk.ob(rule, "siblings", True, "%d single-call wrappers delegate to the wrapped method they are named after; none is wired to a same-typed sibling's target" % n, key=rule + ":ok",
+           sample={"same_named_delegates": n})
+    chk.floor(rule, "same-named single-call delegates", n, 100)
+
+
 def run(chk, facts, tier):
     facts.load_crate("cedar_policy_core.lib")
     facts.load_crate("cedar_policy.lib")
@@ -488,6 +531,7 @@ def run(chk, facts, tier):
     cache_ownership(chk, facts)
     response_hom(chk, facts)
     residual_hom(chk, facts)
+    sibling_delegates(chk, facts)
     cli_table(chk, facts)
     validate_flow(chk, facts)
     wrappers_and_format(chk, facts)
